@@ -75,6 +75,7 @@ type Wire struct {
 	eofWithData bool   // the last bytes in flight come together with io.EOF
 	readGlitch  string // one-shot: "dataerr" = next data comes with ErrTimeout; "temperr" = (0, ErrTemporary) first
 	shortWrite  bool   // one-shot: the next Write of >= 2 bytes takes only a part and reports ErrTimeout
+	refuseWrite bool   // one-shot: the next Write is refused whole: (0, ErrTimeout), nothing on the wire
 	Glitched    int    // glitches delivered so far
 
 	// cut of the connection: after cutLeft more bytes have been handed to the reader the stream ends with endErr
@@ -145,6 +146,10 @@ func (w *Wire) ReadGlitchPending() bool { w.mu.Lock(); defer w.mu.Unlock(); retu
 // half and reports a timeout error.
 func (w *Wire) InjectShortWrite() { w.mu.Lock(); w.shortWrite = true; w.mu.Unlock() }
 
+// InjectRefuseWrite arms a one-shot refusal: the next Write returns (0, ErrTimeout) and puts NOTHING on the wire
+// (an expired write deadline, a pipe that is full for the moment); the connection stays usable.
+func (w *Wire) InjectRefuseWrite() { w.mu.Lock(); w.refuseWrite = true; w.mu.Unlock() }
+
 // glitchErr is a transient error of the underlying connection (net.Error, Timeout and Temporary).
 type glitchErr struct{ msg string }
 
@@ -183,6 +188,11 @@ func (w *Wire) Write(p []byte) (int, error) {
 	}
 	if len(p) == 0 {
 		return 0, nil
+	}
+	if w.refuseWrite {
+		w.refuseWrite = false
+		w.Glitched++
+		return 0, ErrTimeout
 	}
 	var werr error
 	if w.shortWrite && len(p) >= 2 {
